@@ -57,6 +57,13 @@ def roots_case(rng, f, p, tag, expected=None, script=(), profile='debug', nontri
                 compare=compare_rng, oracle=o_roots(f, p, expected) if prime else None, always_oracle=True, nontrivial=nontrivial and p >= 2 and deg(red(f, p)) >= 2,
                 tag=tag + ('-release' if profile == 'release' else ''), profile=profile)
 
+def fixed_width_case(rng, op, f, p, tag, expected):
+    """find_linear_factors::<i64> / ::<i128>: decided by the oracle (root multiset), not tied to the model (the fixed-width
+    generator draws through rand's integer sampler, whose byte consumption is not modelled)"""
+    import lib as _lib
+    return Case(op, line(op, f, p, rng.getrandbits(64), []), model=_lib.IMPL_ONLY, oracle=o_roots(f, p, expected), always_oracle=True,
+                nontrivial=True, tag=tag)
+
 def planted(rng, p, maxdeg):
     """(f, roots): f = lc * prod (x - r)^m * g, g irreducible of degree 0, 2, 3 or 4 (no root)"""
     roots = []
@@ -146,4 +153,12 @@ def cases(rng, tier):
         for f, a, p in [([], 1, 5), ([], 0, 0), ([1, 2], 1, 0), ([3], 1, 0), ([3], 2, 5), ([5], 2, 5)]:
             out.append(Case('pm_poly_of_mod', line('pm_poly_of_mod', f, a, p, *extra), profile=prof, nontrivial=False, tag='poly_of_mod-edge'))
             out.append(Case('pm_divide_by_x_a', line('pm_divide_by_x_a', f, a, p, *extra), profile=prof, nontrivial=False, tag='divide_by_x_a-edge'))
+    # ---- the fixed-width instantiations with primes near their contract limit ((deg+1) p^2 must fit the type: degree <= 6 with
+    # p up to 10^9+7 for i64 and up to 2^61 for i128): every reduction mod p inside the division and powering loops matters here
+    for i in range(24 if not th else 200):
+        op, p = [('pm_roots_i64', 101), ('pm_roots_i64', 65537), ('pm_roots_i64', 100000007), ('pm_roots_i64', 1000000007),
+                 ('pm_roots_i128', 2 ** 61 - 1), ('pm_roots_i128', 1152921504606846883)][i % 6]
+        f, roots = planted(rng, p, 6)
+        if deg(f) < 1: continue
+        out.append(fixed_width_case(rng, op, f, p, 'fixed-width:%s' % op[9:], roots))
     return out
